@@ -61,3 +61,4 @@ Definition w_txt4 : str := zs "SELECT b.t.v, c.u.v, n.w.v, a.x.v".
 Definition w_txt5 : str := zs "SELECT v FROM s1.t".
 Definition w_txt6 : str := zs "SELECT v FROM t".
 Definition w_txt7 : str := zs "SELECT v FROM main.t".
+Definition w_txt_default : str := zs "SELECT max(id) FROM b.u".
